@@ -11,8 +11,8 @@ import AwProofs.Lemmas.StoreSqliteMany
                          `deleteBucket_view/_missing`, `getMetadata_eq`, `bucketsOf_eq`
 * `StoreSqliteEvents`  — `insertOne_view/_missing`, `replace_view`, `delete_view`, `getEvent_eq`,
                          `ids_nodup`
-* `StoreSqliteLast`    — `replaceLast_view`, `replaceLast_view_partial`, counterexample to the
-                         unconditional read part
+* `StoreSqliteLast`    — `replaceLast_view` (unconditional since the repair F22), the former
+                         counterexample to its read part, now read
 * `StoreSqliteMany`    — `insertMany_view`, `insertMany_missing`
 
 Below: the hypotheses of every family are satisfiable on a concrete state with two buckets and
@@ -44,7 +44,7 @@ example := insertOne_view (s := exS) (b := "a") (e := exEv) exS_inv rfl rfl
 example := insertOne_missing (s := exS) (b := "c") (e := exEv) exS_inv rfl
 example := replace_view exS_inv "a" 2 exEv
 example := delete_view (s := exS) (b := "a") (i := 2) exS_inv rfl
-example := replaceLast_view_partial (s := exS) (b := "a") exS_inv rfl (by decide) (by decide) exEv
+example := replaceLast_view (s := exS) (b := "a") exS_inv rfl (by decide) exEv
 example := insertMany_view (s := exS) (b := "a")
   (es := [{ exEv with id := some 1 }, exEv, { exEv with id := some 2 }, exEv]) exS_inv rfl rfl
 example := getEvent_eq (s := exS) (b := "a") exS_inv rfl 3
